@@ -7,6 +7,7 @@ import (
 	"fmt"
 	"sync"
 	"testing"
+	"time"
 
 	goat "github.com/avos-io/goat"
 	"google.golang.org/grpc"
@@ -26,6 +27,10 @@ type ConvCase struct {
 	ArmEnd bool `json:"arm_end,omitempty"`
 	// Intercept installs pass-through unary and stream interceptors on the server and the client.
 	Intercept bool `json:"intercept,omitempty"`
+	// Stats installs a (do-nothing) stats handler on the server and on every client connection.
+	Stats bool `json:"stats,omitempty"`
+	// TickMs: virtual time that passes at every quiescent point of the schedule, so that timers inside goat fire
+	TickMs int `json:"tick_ms,omitempty"`
 }
 
 func (c ConvCase) key() string {
@@ -53,6 +58,8 @@ func genConvCase(t *rapid.T, maxConvs int, kinds []int, o kit.GenOpts, topoKinds
 	c.GateA = rapid.Bool().Draw(t, "gate_a")
 	c.GateB = rapid.Bool().Draw(t, "gate_b")
 	c.Intercept = rapid.IntRange(0, 3).Draw(t, "intercept") == 0
+	c.Stats = rapid.IntRange(0, 3).Draw(t, "stats") == 0
+	c.TickMs = rapid.SampledFrom([]int{0, 0, 0, 1, 20, 2000}).Draw(t, "tick_ms")
 	if c.GateA || c.GateB {
 		c.Tape = rapid.SliceOfN(rapid.Byte(), 0, 64).Draw(t, "tape")
 	}
@@ -60,31 +67,35 @@ func genConvCase(t *rapid.T, maxConvs int, kinds []int, o kit.GenOpts, topoKinds
 }
 
 func (c ConvCase) opts() kit.RunOpts {
-	o := kit.RunOpts{Topo: c.Topo, GateA: c.GateA, GateB: c.GateB, Tape: c.Tape}
+	o := kit.RunOpts{Topo: c.Topo, GateA: c.GateA, GateB: c.GateB, Tape: c.Tape, Tick: time.Duration(c.TickMs) * time.Millisecond}
+	if c.Stats {
+		o.SOpts = append(o.SOpts, goat.StatsHandler(nopStats{}))
+		o.DOpts = append(o.DOpts, goat.WithStatsHandler(nopStats{}))
+	}
 	if c.Intercept {
-		o.SOpts = []goat.ServerOption{
+		o.SOpts = append(o.SOpts,
 			goat.UnaryInterceptor(func(ctx context.Context, req any, _ *grpc.UnaryServerInfo, h grpc.UnaryHandler) (any, error) {
 				return h(ctx, req)
 			}),
 			goat.StreamInterceptor(func(srv any, ss grpc.ServerStream, _ *grpc.StreamServerInfo, h grpc.StreamHandler) error {
 				return h(srv, ss)
 			}),
-		}
-		o.DOpts = []goat.DialOption{
+		)
+		o.DOpts = append(o.DOpts,
 			goat.WithUnaryInterceptor(func(ctx context.Context, m string, req, reply any, cc *grpc.ClientConn, inv grpc.UnaryInvoker, opts ...grpc.CallOption) error {
 				return inv(ctx, m, req, reply, cc, opts...)
 			}),
 			goat.WithStreamInterceptor(func(ctx context.Context, d *grpc.StreamDesc, cc *grpc.ClientConn, m string, st grpc.Streamer, opts ...grpc.CallOption) (grpc.ClientStream, error) {
 				return st(ctx, d, cc, m, opts...)
 			}),
-		}
+		)
 	}
 	return o
 }
 
 // convLabels computes the common labels of a conv case.
 func convLabels(c ConvCase, tap []kit.Ev) (labels []string, interleaved bool, maxMsgs int, concurrent bool) {
-	labels = append(labels, "topo="+c.Topo.Kind, fmt.Sprintf("ser=%v", c.Topo.Serialize), fmt.Sprintf("gated=%v", c.GateA || c.GateB), fmt.Sprintf("intercept=%v", c.Intercept))
+	labels = append(labels, "topo="+c.Topo.Kind, fmt.Sprintf("ser=%v", c.Topo.Serialize), fmt.Sprintf("gated=%v", c.GateA || c.GateB), fmt.Sprintf("intercept=%v", c.Intercept), fmt.Sprintf("stats=%v", c.Stats), fmt.Sprintf("time_passes=%v", c.TickMs > 0))
 	nstreams := 0
 	for _, cv := range c.Convs {
 		labels = append(labels, "kind="+kit.KindNames[cv.Kind])
